@@ -157,6 +157,73 @@ def write_found(prop, failure):
     return path
 
 
+def finish(prop, tier, seed, mod, mode, assumptions, tot, corpus, nshards, violations, known_lines, t0):
+    wall = time.time() - t0
+    n_nt = len(tot["nontrivial"])
+    cov = {
+        "evaluations": int(tot["evaluations"]),
+        "distinct_nontrivial": int(n_nt),
+        "rule": getattr(mod, "RULE", ""),
+        "samples": tot["samples"][:12] or [],
+        "classes": dict(sorted(tot["classes"].items())),
+        "excluded_counted": dict(tot["excluded"]),
+        "known_finding_hits": dict(tot["known_hits"]),
+        "regression_replays": len(corpus),
+        "shards": nshards,
+        "build": mode,
+        "engine": getattr(mod, "ENGINE", "hypothesis"),
+    }
+    if tot["exhaustive"]:
+        cov["exhaustive_subspaces"] = tot["exhaustive"]
+        cov["exhaustive"] = bool(getattr(mod, "EXHAUSTIVE_OVERALL", False)
+                                 and all(tot["exhaustive"].values()))
+    if tot["extra"]:
+        cov.update(tot["extra"])
+    if tot["notes"]:
+        cov["notes"] = tot["notes"]
+    ev = {
+        "property_id": prop, "tier": tier, "seed": seed,
+        "level": getattr(mod, "LEVEL", "exploration"),
+        "coverage": cov,
+        "assumptions": assumptions,
+        "wall_s": round(wall, 2),
+        "violations": len(violations),
+    }
+    evdir = os.environ.get("VERIF_EVIDENCE_DIR") or os.path.join(VERIF, "evidence")
+    os.makedirs(evdir, exist_ok=True)
+    evpath = os.path.join(evdir, prop + ".json")
+    with open(evpath, "w") as fh:
+        json.dump(jsonable(ev), fh, indent=1, sort_keys=True)
+    try:
+        import jsonschema
+        schema = json.load(open(os.path.join(VERIF, "schemas", "EVIDENCE.schema.json"))) \
+            if os.path.exists(os.path.join(VERIF, "schemas", "EVIDENCE.schema.json")) else None
+        if schema:
+            jsonschema.validate(json.load(open(evpath)), schema)
+    except ImportError:
+        pass
+    except Exception as e:
+        print(f"HARNESS-ERROR evidence does not validate: {e}")
+        return 2
+
+    print(f"{prop} {tier} seed={seed}: {cov['evaluations']} evaluations, "
+          f"{n_nt} distinct non-trivial, {len(violations)} violation(s), "
+          f"{wall:.1f}s, build={mode}")
+    if n_nt < 2 or cov["evaluations"] < 1 or not cov["samples"]:
+        print("HARNESS-ERROR vacuous run (too few non-trivial cases)")
+        return 2
+    missing = [c for c in getattr(mod, "REQUIRED_CLASSES", []) if not tot["classes"].get(c)]
+    if missing and not violations:
+        print(f"HARNESS-ERROR generator did not cover required case classes: {missing}")
+        return 2
+    for sig, text in known_lines:
+        print(f"KNOWN-FINDING: property={prop} {text} [sig={sig}]")
+    for f, path in violations:
+        print(f"  {f['sig']}: {json.dumps(f['detail'], default=repr)[:1200]}")
+        print(f"VIOLATION property={prop} replay={path}")
+    return 1 if violations else 0
+
+
 def main(argv):
     if len(argv) < 2:
         print(__doc__)
@@ -210,6 +277,44 @@ def main(argv):
                   + str(stage.compile_error)[-500:])
         base = {"prop": prop, "tier": tier, "seed": seed, "known_sigs": known_sigs,
                 "nshards": nshards}
+
+        # ---- differential properties (one corpus, many configurations; compared in the parent)
+        if getattr(mod, "DIFFERENTIAL", False):
+            from .diffrun import run_differential
+            if replay_path is not None:
+                body = json.load(open(replay_path))
+                case = body["case"] if isinstance(body, dict) and "case" in body else body
+                st = run_differential(mod, prop, "thorough" if os.environ.get("VERIF_TIER") == "thorough" else "quick", seed,
+                                      stage_paths, workdir, spawn, collect, WORKER_TIMEOUT["quick"], only_cases=[case])
+                if not st["failures"]:
+                    print(f"replay {replay_path}: property {prop} holds on this case")
+                    return 0
+                f = st["failures"][0]
+                print(f"replay {replay_path}: {f['sig']}: {json.dumps(f['detail'], default=repr)[:1500]}")
+                print(f"VIOLATION property={prop} replay={replay_path}")
+                return 1
+            regression = []
+            for path in sorted(glob.glob(os.path.join(VERIF, "replays", prop, "*.json"))):
+                regression.append(json.load(open(path))["case"])
+            st = run_differential(mod, prop, tier, seed, stage_paths, workdir, spawn, collect, WORKER_TIMEOUT[tier],
+                                  regression=regression)
+            results = [{"stats": st}]
+            corpus = regression
+            nshards = len(mod.configs(tier)) * mod.parts(tier)
+            violations = []
+            known_lines = []
+            tot = merge(results)
+            tot["samples"] = st["samples"][:12]
+            seen = set()
+            for f in tot["failures"]:
+                if f["sig"] in known:
+                    known_lines.append((f["sig"], known[f["sig"]][1]))
+                    continue
+                if f["sig"] in seen:
+                    continue
+                seen.add(f["sig"])
+                violations.append((f, write_found(prop, f)))
+            return finish(prop, tier, seed, mod, "compiled+pure", assumptions, tot, corpus, nshards, violations, known_lines, t0)
 
         # ---- single replay mode
         if replay_path is not None:
@@ -278,70 +383,7 @@ def main(argv):
             seen.add(key)
             violations.append((f, write_found(prop, f)))
 
-        wall = time.time() - t0
-        n_nt = len(tot["nontrivial"])
-        cov = {
-            "evaluations": int(tot["evaluations"]),
-            "distinct_nontrivial": int(n_nt),
-            "rule": getattr(mod, "RULE", ""),
-            "samples": tot["samples"][:12] or [],
-            "classes": dict(sorted(tot["classes"].items())),
-            "excluded_counted": dict(tot["excluded"]),
-            "known_finding_hits": dict(tot["known_hits"]),
-            "regression_replays": len(corpus),
-            "shards": nshards,
-            "build": mode,
-            "engine": getattr(mod, "ENGINE", "hypothesis"),
-        }
-        if tot["exhaustive"]:
-            cov["exhaustive_subspaces"] = tot["exhaustive"]
-            cov["exhaustive"] = bool(getattr(mod, "EXHAUSTIVE_OVERALL", False)
-                                     and all(tot["exhaustive"].values()))
-        if tot["extra"]:
-            cov.update(tot["extra"])
-        if tot["notes"]:
-            cov["notes"] = tot["notes"]
-        ev = {
-            "property_id": prop, "tier": tier, "seed": seed,
-            "level": getattr(mod, "LEVEL", "exploration"),
-            "coverage": cov,
-            "assumptions": assumptions,
-            "wall_s": round(wall, 2),
-            "violations": len(violations),
-        }
-        evdir = os.environ.get("VERIF_EVIDENCE_DIR") or os.path.join(VERIF, "evidence")
-        os.makedirs(evdir, exist_ok=True)
-        evpath = os.path.join(evdir, prop + ".json")
-        with open(evpath, "w") as fh:
-            json.dump(jsonable(ev), fh, indent=1, sort_keys=True)
-        try:
-            import jsonschema
-            schema = json.load(open(os.path.join(VERIF, "schemas", "EVIDENCE.schema.json"))) \
-                if os.path.exists(os.path.join(VERIF, "schemas", "EVIDENCE.schema.json")) else None
-            if schema:
-                jsonschema.validate(json.load(open(evpath)), schema)
-        except ImportError:
-            pass
-        except Exception as e:
-            print(f"HARNESS-ERROR evidence does not validate: {e}")
-            return 2
-
-        print(f"{prop} {tier} seed={seed}: {cov['evaluations']} evaluations, "
-              f"{n_nt} distinct non-trivial, {len(violations)} violation(s), "
-              f"{wall:.1f}s, build={mode}")
-        if n_nt < 2 or cov["evaluations"] < 1 or not cov["samples"]:
-            print("HARNESS-ERROR vacuous run (too few non-trivial cases)")
-            return 2
-        missing = [c for c in getattr(mod, "REQUIRED_CLASSES", []) if not tot["classes"].get(c)]
-        if missing and not violations:
-            print(f"HARNESS-ERROR generator did not cover required case classes: {missing}")
-            return 2
-        for sig, text in known_lines:
-            print(f"KNOWN-FINDING: property={prop} {text} [sig={sig}]")
-        for f, path in violations:
-            print(f"  {f['sig']}: {json.dumps(f['detail'], default=repr)[:1200]}")
-            print(f"VIOLATION property={prop} replay={path}")
-        return 1 if violations else 0
+        return finish(prop, tier, seed, mod, mode, assumptions, tot, corpus, nshards, violations, known_lines, t0)
     except RuntimeError as e:
         print(f"HARNESS-ERROR {e}")
         return 2
